@@ -37,6 +37,8 @@ pub const CHECKS: &[(&str, RunFn, JudgeFn)] = &[
     ("C12", checks::c12::run, checks::c12::judge),
     ("C13", checks::c13::run, checks::c13::judge),
     ("C14", checks::c14::run, checks::c14::judge),
+    ("C15", checks::c15::run, checks::c15::judge),
+    ("C16", checks::c16::run, checks::c16::judge),
     ("C17", checks::c17::run, checks::c17::judge),
 ];
 
@@ -87,6 +89,7 @@ fn main() {
             let n: usize = args.get(4).and_then(|s| s.parse().ok()).unwrap_or(0);
             match args[2].as_str() {
                 "c12" => checks::c12::worker(seed, n),
+                "c15serve" => checks::c15::serve(),
                 _ => usage(),
             }
         }
